@@ -183,10 +183,10 @@ Definition restore_set (c : shard) : list replica :=
   if need_restore c then
     (if bool_decide (sr_quorum c ≤ n_ok c + length (restorable c))%nat then restorable c else [])
   else restorable c.
-Definition has_restore (c : shard) : bool := negb (bool_decide (restore_set c = [])).
+Definition has_restore (c : shard) : bool := match restore_set c with [] => false | _ :: _ => true end.
 (* restoredShards of maintainShards: the ShardId of every restore request *)
 Definition restored_ids : list N := s_id <$> filter (λ c, has_restore c = true) entries.
-Definition is_restored (c : shard) : bool := bool_decide (s_id c ∈ restored_ids).
+Definition is_restored (c : shard) : bool := existsb (N.eqb (s_id c)) restored_ids.
 
 (** * replacement host (filter.go, selector.go, getReplacementNode) *)
 Definition host_live (h : hostspec) : bool := now - h_tick h <? p_ttl P.       (* liveFilter, gap = nodeHostTTL *)
